@@ -229,7 +229,10 @@ impl Variable {
 
 
 // ----- (b) opaque stand-ins for repo types the verified functions only pass around -------
-pub struct Type { pub id: Ghost<int> }                 // src/variable/type.rs (HashSet-based unions: outside Verus)
+// `Type` itself is copied from src/variable/type.rs (see //@TYPES); the union / struct / function types it refers to are opaque
+pub struct FunctionType { pub id: Ghost<int> }         // src/variable/function_type.rs
+pub struct MultiType { pub id: Ghost<int> }            // src/variable/multi_type.rs (HashSet-based unions: outside Verus)
+pub struct StructType { pub id: Ghost<int> }           // src/variable/struct_type.rs (HashMap-based)
 pub struct Params { pub id: Ghost<int> }
 pub struct AnonymousFunction { pub id: Ghost<int> }
 pub struct FunctionDeclaration { pub id: Ghost<int> }
@@ -255,6 +258,22 @@ impl Variable {
     /// Typed::as_type — not verified (match_any!, HashMap)
     #[verifier::external_body]
     pub fn as_type(&self) -> (r: Type) ensures r == spec_as_type(*self) { unimplemented!() }
+}
+// derived PartialEq on Type (structural; the opaque member types compare by their abstract identity)
+impl vstd::std_specs::cmp::PartialEqSpecImpl for Type {
+    open spec fn obeys_eq_spec() -> bool { true }
+    open spec fn eq_spec(&self, other: &Type) -> bool { *self == *other }
+}
+impl PartialEq for Type { #[verifier::external_body] fn eq(&self, other: &Type) -> (r: bool) { unimplemented!() } }
+/// static type the checker computes for an instruction (ReturnType::return_type: match_any!, HashSet unions — not verified)
+pub uninterp spec fn spec_return_type(i: Instruction) -> Type;
+impl Instruction {
+    #[verifier::external_body]
+    pub fn return_type(&self) -> (r: Type) ensures r == spec_return_type(*self) { unimplemented!() }
+}
+impl InstructionWithStr {
+    #[verifier::external_body]
+    pub fn return_type(&self) -> (r: Type) ensures r == spec_return_type(self.instruction) { unimplemented!() }
 }
 impl Type {
     /// Type::matches — not verified (see C10 in DESIGN)
